@@ -195,7 +195,8 @@ def sig_of(cls, tname, failure, site):
 def admissible(names, cls):
     if cls == "oracle" and any('"' in n for n in names):
         return False
-    return all(n and "\0" not in n for n in names)
+    # '*' alone is the API's spelling of "all columns" (select('*'), Field('*')), not a column name
+    return all(n and "\0" not in n and n != "*" for n in names)
 
 
 def check_case(case):
